@@ -91,3 +91,20 @@ func (fc *FnCtx) mutatedIn(obj types.Object, body ast.Node) bool {
 	})
 	return found
 }
+
+// localInScope: is a local variable of that name visible at pos?
+func (fc *FnCtx) localInScope(name string, pos token.Pos) bool {
+	if !pos.IsValid() || fc.pkg.Types == nil {
+		return false
+	}
+	sc := fc.pkg.Types.Scope().Innermost(pos)
+	if sc == nil {
+		return false
+	}
+	_, obj := sc.LookupParent(name, pos)
+	if obj == nil {
+		return false
+	}
+	v, ok := obj.(*types.Var)
+	return ok && v.Pkg() != nil && v.Parent() != v.Pkg().Scope()
+}
